@@ -65,6 +65,9 @@ impl<T: 'static> Clone for PooledLocalRef<T> {
 unsafe impl<T: 'static> LocalRef<T> for PooledLocalRef<T> {
     #[inline]
     unsafe fn release_event(&self) {
+        #[cfg(folo_verif)]
+        crate::verif::release(self.event.as_ptr().addr(), "local_pooled");
+
         #[cfg(debug_assertions)]
         self.core.state.borrow_mut().unregister(self.event);
 
